@@ -205,3 +205,105 @@ func FuzzC14(f *testing.F) {
 		}
 	})
 }
+
+// ---- the same through configured tokenizers: the encoded form as one token in a CSV / expression token stream ----
+
+type c14TokCase struct {
+	Tok    string   `json:"tok"` // csv | expression
+	Quotes []rune   `json:"quotes"`
+	Seps   []rune   `json:"seps"`
+	Setup  []string `json:"setup"` // csv: order of the configuration calls, incl. rejected ones (see c09Configure)
+	S      string   `json:"s"`
+	Before string   `json:"before"` // unquoted text in front of the literal ("" or text ending in a blank / separator / nothing)
+	After  string   `json:"after"`
+}
+
+func checkC14Tok(c c14TokCase) *evid.Fail {
+	var res *evid.Fail
+	if g := guard(func() {
+		var t tokenizers.ITokenizer
+		q := c.Quotes[0]
+		var st tokenizers.IQuoteState
+		if c.Tok == "csv" {
+			ct := csv.NewCsvTokenizer()
+			c09Configure(ct, c09Case{Seps: c.Seps, Quotes: c.Quotes, Setup: c.Setup})
+			t, st = ct, ct.QuoteState()
+		} else {
+			et := ctok.NewExpressionTokenizer()
+			t, st = et, et.QuoteState()
+			q = '\''
+		}
+		enc := st.EncodeString(c.S, q)
+		text := c.Before + enc + c.After
+		t.SetDecodeStrings(true)
+		var hits int
+		var all []string
+		for _, tk := range t.TokenizeBuffer(text) {
+			all = append(all, fmt.Sprintf("%s(%q)", tokTypeName(tk.Type()), tk.Value()))
+			if tk.Type() == tokenizers.Quoted {
+				hits++
+				if tk.Value() != c.S {
+					res = evid.F("token-stream:decoded-value:"+c.Tok, "%s tokenizer (quotes %q, separators %q, setup %v): %q yields the quoted token %q, the literal encodes %q; tokens %v", c.Tok, string(c.Quotes), string(c.Seps), c.Setup, text, tk.Value(), c.S, all)
+					return
+				}
+			}
+		}
+		if hits != 1 {
+			res = evid.F("token-stream:not-one-token:"+c.Tok, "%s tokenizer (quotes %q, separators %q, setup %v): the encoded form of %q inside %q arrived as %d quoted tokens: %v", c.Tok, string(c.Quotes), string(c.Seps), c.Setup, c.S, text, hits, all)
+		}
+	}); g != nil {
+		return g
+	}
+	return res
+}
+
+func init() { regReplay("C14.tok", checkC14Tok) }
+
+func TestC14_RapidTokenStreams(t *testing.T) {
+	rec := evid.New("C14", "TestC14_RapidTokenStreams", "C14.tok", c14Rule+"; through configured tokenizers: the encoded form, placed behind unquoted text and in front of a separator, in a CSV tokenizer configured in any order of setter calls (rejected calls included) or in the expression tokenizer, arrives as exactly one Quoted token carrying the original string")
+	defer finish(t, rec)
+	quotePool := []rune{'"', '\'', '`', '«', '“'}
+	sepPool := []rune{',', ';', '\t', '|', '，'}
+	runRapid(t, pick(20000, 150000), 1414, func(rt *rapid.T) {
+		c := c14TokCase{Tok: rapid.SampledFrom([]string{"csv", "csv", "expression"}).Draw(rt, "tok")}
+		c.Quotes = rapid.SliceOfNDistinct(rapid.SampledFrom(quotePool), 1, 2, func(r rune) rune { return r }).Draw(rt, "quotes")
+		c.Seps = rapid.SliceOfNDistinct(rapid.SampledFrom(sepPool), 1, 2, func(r rune) rune { return r }).Draw(rt, "seps")
+		valid := rapid.Permutation([]string{"seps", "quotes"}).Draw(rt, "order")
+		extras := []string{"badseps", "badquotes", "eol:\n"}
+		for pos := 0; pos <= 2; pos++ {
+			if rapid.IntRange(0, 2).Draw(rt, "extra") == 0 {
+				c.Setup = append(c.Setup, rapid.SampledFrom(extras).Draw(rt, "which"))
+			}
+			if pos < 2 {
+				c.Setup = append(c.Setup, valid[pos])
+			}
+		}
+		n := rapid.IntRange(0, 12).Draw(rt, "len")
+		var sb strings.Builder
+		for i := 0; i < n; i++ {
+			switch rapid.IntRange(0, 5).Draw(rt, "k") {
+			case 0:
+				sb.WriteRune(c.Quotes[0])
+			case 1:
+				sb.WriteRune(rapid.SampledFrom(append(append([]rune{'\n', '\r'}, c.Seps...), c.Quotes...)).Draw(rt, "sig"))
+			case 2:
+				sb.WriteRune(genRune(rt))
+			default:
+				sb.WriteRune(rune(rapid.SampledFrom([]rune("abc 12")).Draw(rt, "plain")))
+			}
+		}
+		c.S = sb.String()
+		if c.Tok == "csv" {
+			c.Before = rapid.SampledFrom([]string{"", "id 7 ", "word" + string(c.Seps[0]), "a b\n"}).Draw(rt, "before")
+			c.After = rapid.SampledFrom([]string{"", string(c.Seps[0]) + "tail", "\n", string(c.Seps[len(c.Seps)-1])}).Draw(rt, "after")
+		} else {
+			c.Quotes, c.Seps, c.Setup = []rune{'\''}, nil, nil
+			c.Before = rapid.SampledFrom([]string{"", "x = ", "f(", "1 + "}).Draw(rt, "before")
+			c.After = rapid.SampledFrom([]string{"", ")", " + 1", "\n"}).Draw(rt, "after")
+		}
+		rec.Case(jsonStr(c), strings.ContainsRune(c.S, c.Quotes[0]) || len(c.Setup) > 2, func() interface{} { return c }, "tok:"+c.Tok)
+		if f := checkC14Tok(c); f != nil && rec.Fail(f, c) {
+			rt.Fatalf("%v", f)
+		}
+	})
+}
